@@ -10,18 +10,23 @@ FILE_OPS = ["open", "exec", "mknod", "mkdir", "rmdir", "unlink", "truncate", "ch
             "file_mmap", "file_perm", "file_lock", "file_inherit", "file_receive"]
 MASKS = ["r", "w", "rw", "a", "c", "d", "wc", "x", "m", "k", "l", "wr", "ac", "rwc"]
 NAME_FAMILIES = [
-    "/home/{user}/.cache/app/t{tag}", "/home/{user}/.config/app/conf.d/t{tag}", "/home/{user}/.local/share/app/t{tag}", "/home/{user}/Documents/t{tag}",
-    "/home/{user}/.ssh/t{tag}", "/home/{user}/.gnupg/t{tag}", "/usr/lib/app/t{tag}", "/usr/lib64/app/t{tag}.so.1", "/usr/libexec/app/t{tag}",
-    "/usr/bin/t{tag}", "/usr/sbin/t{tag}", "/usr/share/app/t{tag}", "/etc/app/t{tag}.conf", "/var/lib/app/t{tag}", "/var/log/app/t{tag}.log",
-    "/proc/{pid}/task/{tid}/t{tag}", "/proc/{pid}/t{tag}", "/proc/1/t{tag}", "/proc/sys/kernel/t{tag}", "/sys/devices/pci0000:00/0000:00:1f.3/t{tag}",
-    "/sys/devices/pci0000:00/0000:00:02.0/drm/card0/t{tag}", "/sys/dev/block/8:16/t{tag}", "/sys/class/net/t{tag}", "/sys/fs/cgroup/user.slice/user-1000.slice/t{tag}",
-    "/run/user/{uid}/t{tag}", "/run/user/{uid}/bus-t{tag}", "/var/run/app/t{tag}", "/run/udev/data/+pci:0000:00:02.0-t{tag}", "/run/udev/data/c226:0-t{tag}",
-    "/tmp/t{tag}", "/tmp/user/1000/t{tag}", "/dev/shm/t{tag}", "/dev/dri/card0-t{tag}", "/dev/tty1-t{tag}", "/opt/App Name/t{tag}", "/boot/vmlinuz-6.1.0-18-amd64-t{tag}",
-    "/usr/lib/x86_64-linux-gnu/app/t{tag}", "/usr/lib/modules/6.1.0-18-amd64/kernel/t{tag}.ko", "/var/lib/app/3f2a8c1e-9b7d-4e6f-a1b2-c3d4e5f60718/t{tag}",
-    "/var/cache/app/0123456789abcdef0123456789abcdef/t{tag}", "/srv/data/20240101/t{tag}", "/home/{user}/.mozilla/firefox/ab12cd34.default/t{tag}",
-    "/usr/share/icons/Adwaita/16x16/t{tag}.png", "/etc/ssl/certs/ca-certificates-t{tag}.crt", "/home/{user}/Téléchargements/t{tag}", "/media/{user}/USB DISK/t{tag}",
+    "/home/{user}/.cache/app/zq{tag}", "/home/{user}/.config/app/conf.d/zq{tag}", "/home/{user}/.local/share/app/zq{tag}", "/home/{user}/Documents/zq{tag}",
+    "/home/{user}/.ssh/zq{tag}", "/home/{user}/.gnupg/zq{tag}", "/usr/lib/app/zq{tag}", "/usr/lib64/app/zq{tag}.so.1", "/usr/libexec/app/zq{tag}",
+    "/usr/bin/zq{tag}", "/usr/sbin/zq{tag}", "/usr/share/app/zq{tag}", "/etc/app/zq{tag}.conf", "/var/lib/app/zq{tag}", "/var/log/app/zq{tag}.log",
+    "/proc/{pid}/task/{tid}/zq{tag}", "/proc/{pid}/zq{tag}", "/proc/1/zq{tag}", "/proc/sys/kernel/zq{tag}", "/sys/devices/pci0000:00/0000:00:1f.3/zq{tag}",
+    "/sys/devices/pci0000:00/0000:00:02.0/drm/card0/zq{tag}", "/sys/dev/block/8:16/zq{tag}", "/sys/class/net/zq{tag}", "/sys/fs/cgroup/user.slice/user-1000.slice/zq{tag}",
+    "/run/user/{uid}/zq{tag}", "/run/user/{uid}/bus-zq{tag}", "/var/run/app/zq{tag}", "/run/udev/data/+pci:0000:00:02.0-zq{tag}", "/run/udev/data/c226:0-zq{tag}",
+    "/tmp/zq{tag}", "/tmp/user/1000/zq{tag}", "/dev/shm/zq{tag}", "/dev/dri/card0-zq{tag}", "/dev/tty1-zq{tag}", "/opt/App Name/zq{tag}", "/boot/vmlinuz-6.1.0-18-amd64-zq{tag}",
+    "/usr/lib/x86_64-linux-gnu/app/zq{tag}", "/usr/lib/modules/6.1.0-18-amd64/kernel/zq{tag}.ko", "/var/lib/app/3f2a8c1e-9b7d-4e6f-a1b2-c3d4e5f60718/zq{tag}",
+    "/var/cache/app/0123456789abcdef0123456789abcdef/zq{tag}", "/srv/data/20240101/zq{tag}", "/home/{user}/.mozilla/firefox/ab12cd34.default/zq{tag}",
+    "/usr/share/icons/Adwaita/16x16/zq{tag}.png", "/etc/ssl/certs/ca-certificates-zq{tag}.crt", "/home/{user}/Téléchargements/zq{tag}", "/media/{user}/USB DISK/zq{tag}",
 ]
 USERS = ["alice", "bob", "user1", "Ünï"]
+
+
+def tagstr(tag):
+    """Unique tag as letters g..p (no digit run, no hex digit): survives every generalisation pattern."""
+    return "".join("ghijklmnop"[int(c)] for c in str(tag))
 
 
 def needs_hex(v):
@@ -40,9 +45,13 @@ def enc_value(key, v, force_hex=False):
 def render(fields, framing="audit", serial=1, ts="1700000000.123", apparmor_first=True):
     """fields: list of (key, value) or (key, value, 'hex'). Returns one log line (no newline)."""
     parts = []
+    userspace = framing in ("dbus-syslog", "journald-dbus")      # dbus-daemon quotes its values, it never hex-encodes
     for f in fields:
         k, v = f[0], f[1]
-        parts.append(enc_value(k, v, force_hex=(len(f) > 2 and f[2] == "hex")))
+        if userspace and k not in BARE:
+            parts.append('%s="%s"' % (k, v))
+        else:
+            parts.append(enc_value(k, v, force_hex=(len(f) > 2 and f[2] == "hex")))
     body = " ".join(parts)
     if framing == "audit":
         return "type=AVC msg=audit(%s:%d): %s" % (ts, serial, body)
@@ -64,9 +73,10 @@ def gen_record(rng, tag, cls=None, status=None, profile=None, tame=False):
     status = status or rng.choice(["DENIED", "ALLOWED", "ALLOWED", "AUDIT"])
     profile = profile or rng.choice(PROFILES)
     pid = str(rng.randint(100, 99999))
-    comm = "c%d" % tag
+    ts_ = tagstr(tag)
+    comm = "c" + ts_
     user = rng.choice(USERS[:3] if tame else USERS)
-    name = rng.choice(NAME_FAMILIES).format(user=user, pid=rng.randint(2, 99999), tid=rng.randint(2, 99999), uid=rng.choice([1000, 1001, 0, 120]), tag=tag)
+    name = rng.choice(NAME_FAMILIES).format(user=user, pid=rng.randint(2, 99999), tid=rng.randint(2, 99999), uid=rng.choice([1000, 1001, 0, 120]), tag=ts_)
     f = [("apparmor", status)]
     if cls in ("file", "exec", "link"):
         op = {"exec": "exec", "link": "link"}.get(cls) or rng.choice([o for o in FILE_OPS if o not in ("exec", "link")])
@@ -82,7 +92,7 @@ def gen_record(rng, tag, cls=None, status=None, profile=None, tame=False):
         ouid = rng.choice([fsuid, fsuid, "0", "1000"])
         f += [("fsuid", fsuid), ("ouid", ouid)]
         if cls == "link":
-            f.append(("target", name.rsplit("/", 1)[0] + "/lt%d" % tag))
+            f.append(("target", name.rsplit("/", 1)[0] + "/lzq" + ts_))
         if cls == "exec" and rng.random() < 0.3:
             f.append(("target", rng.choice(["child-open", "foo//bar"])))
     elif cls == "change_onexec":
@@ -99,8 +109,8 @@ def gen_record(rng, tag, cls=None, status=None, profile=None, tame=False):
     elif cls == "unix":
         f += [("operation", rng.choice(["connect", "file_perm", "sendmsg"])), ("class", rng.choice(["net", "unix"])), ("profile", profile), ("pid", pid), ("comm", comm), ("family", "unix"),
               ("sock_type", rng.choice(["stream", "dgram", "seqpacket"])), ("protocol", "0"), ("requested_mask", rng.choice(["send receive", "connect", "receive", "send receive connect"])),
-              ("denied_mask", "send receive"), ("addr", rng.choice(["none", "@/tmp/.X11-unix/X0", "@/tmp/dbus-t%d" % tag])),
-              ("peer_addr", rng.choice(["none", "@/tmp/.ICE-unix/%d" % (2000 + tag), "@/run/user/1000/bus-t%d" % tag])), ("peer", rng.choice(PROFILES + ["unconfined"]))]
+              ("denied_mask", "send receive"), ("addr", rng.choice(["none", "@/tmp/.X11-unix/X0", "@/tmp/dbus-zq" + ts_])),
+              ("peer_addr", rng.choice(["none", "@/tmp/.ICE-unix/" + ts_, "@/run/user/1000/bus-zq" + ts_])), ("peer", rng.choice(PROFILES + ["unconfined"]))]
     elif cls == "signal":
         f += [("operation", "signal"), ("class", "signal"), ("profile", profile), ("pid", pid), ("comm", comm), ("requested_mask", rng.choice(["send", "receive"])),
               ("denied_mask", "send"), ("signal", rng.choice(["term", "kill", "hup", "usr1", "int", "exists"])), ("peer", rng.choice(PROFILES + ["unconfined"]))]
@@ -111,26 +121,26 @@ def gen_record(rng, tag, cls=None, status=None, profile=None, tame=False):
         mask = rng.choice(["send", "receive", "bind"])
         f += [("operation", {"send": "dbus_method_call", "receive": "dbus_signal", "bind": "dbus_bind"}[mask]), ("bus", rng.choice(["system", "session"]))]
         if mask == "bind":
-            f += [("name", "org.example.T%d" % tag), ("mask", "bind"), ("pid", pid), ("label", profile)]
+            f += [("name", "org.example.T" + ts_), ("mask", "bind"), ("pid", pid), ("label", profile)]
         else:
-            f += [("path", "/org/example/T%d" % tag), ("interface", rng.choice(["org.freedesktop.DBus.Properties", "org.example.Iface"])), ("member", rng.choice(["Get", "Changed", "Ping"])),
+            f += [("path", "/org/example/T" + ts_), ("interface", rng.choice(["org.freedesktop.DBus.Properties", "org.example.Iface"])), ("member", rng.choice(["Get", "Changed", "Ping"])),
                   ("mask", mask), ("name", rng.choice([":1.%d" % rng.randint(1, 999), "org.example.Svc"])), ("pid", pid), ("label", profile), ("peer_pid", str(rng.randint(100, 9999))),
                   ("peer_label", rng.choice(PROFILES + ["unconfined"]))]
     elif cls in ("mount", "umount", "remount", "pivotroot"):
         f += [("operation", {"remount": "mount"}.get(cls, cls)), ("class", "mount")]
         if rng.random() < 0.3:
             f += [("info", "failed mntpnt match"), ("error", "-13")]
-        f += [("profile", profile), ("name", name.rsplit("/", 1)[0] + "/m%d/" % tag), ("pid", pid), ("comm", comm)]
+        f += [("profile", profile), ("name", name.rsplit("/", 1)[0] + "/m" + ts_ + "/"), ("pid", pid), ("comm", comm)]
         if cls in ("mount", "remount"):
-            f += [("fstype", rng.choice(["tmpfs", "ext4", "proc"])), ("srcname", rng.choice(["tmpfs", "/dev/sda1", "/run/s%d/" % tag]))]
+            f += [("fstype", rng.choice(["tmpfs", "ext4", "proc"])), ("srcname", rng.choice(["tmpfs", "/dev/sda1", "/run/s" + ts_ + "/"]))]
             flags = rng.choice(["rw, nosuid, nodev", "ro, bind", "rw, rbind", "rw, rprivate"])
             if cls == "remount":
                 flags = "rw, remount, " + rng.choice(["bind", "nosuid"])
             f.append(("flags", flags))
         if cls == "pivotroot":
-            f.append(("srcname", name.rsplit("/", 1)[0] + "/old%d/" % tag))
+            f.append(("srcname", name.rsplit("/", 1)[0] + "/old" + ts_ + "/"))
     elif cls == "mqueue":
-        f += [("operation", rng.choice(["mq_open", "mq_unlink"])), ("class", rng.choice(["posix_mqueue", "sysv_mqueue"])), ("profile", profile), ("name", "/q%d" % tag), ("pid", pid), ("comm", comm),
+        f += [("operation", rng.choice(["mq_open", "mq_unlink"])), ("class", rng.choice(["posix_mqueue", "sysv_mqueue"])), ("profile", profile), ("name", "/q" + ts_), ("pid", pid), ("comm", comm),
               ("requested", rng.choice(["create", "read", "write open"])), ("denied", "create")]
     elif cls == "io_uring":
         f += [("operation", "uring_sqpoll"), ("class", "io_uring"), ("profile", profile), ("pid", pid), ("comm", comm), ("requested", rng.choice(["sqpoll", "override_creds"])), ("denied", "sqpoll")]
